@@ -1020,14 +1020,11 @@ def sym_sort(a, axis=-1):
 
 
 def sym_median(a, axis=None, **kw):
-    flat = _plain(a).ravel().tolist()
-    if any(s_isnan(e) is not False for e in flat):
-        raise Unsupported("median with possibly-NaN elements")
     b, lanes, shp = _lanes(a, axis)
     out = np.empty(shp, dtype=object)
     for pos, lane in lanes:
         n = len(lane)
-        if n == 0:
+        if n == 0 or any(builtins.bool(s_isnan(e)) for e in lane):      # NumPy: a NaN anywhere in the lane gives NaN
             out[pos] = float("nan")
             continue
         s = _cswap_sorted(lane)
@@ -1338,8 +1335,36 @@ def sym_nanmean(a, axis=None, **kw):
     return div(tot, cnt)
 
 
+def sym_nanmedian(a, axis=None, **kw):
+    """median ignoring NaN entries (a lane of NaNs only gives NaN); symbolic NaN flags fork"""
+    A = np.asarray(_plain(a), dtype=object)
+    if axis is None:
+        A, axis = A.reshape(-1), 0
+    axis = axis % A.ndim
+    B = np.moveaxis(A, axis, -1)
+    out = np.empty(B.shape[:-1], dtype=object)
+    for pos in np.ndindex(*B.shape[:-1]):
+        lane = [e for e in B[pos].tolist() if not builtins.bool(s_isnan(e))]
+        if not lane:
+            out[pos] = float("nan")
+        elif len(lane) == 1:
+            out[pos] = lane[0]
+        else:
+            m = sym_median(mk(lane))
+            out[pos] = m[()] if isinstance(m, np.ndarray) else m
+    return _result(out) if out.shape else out[()]
+
+
 def sym_nan_to_num(x, copy=True, nan=0.0, posinf=None, neginf=None):
-    return _result(_elementwise(lambda e: ite(s_isnan(e), nan, e) if isinstance(e, Sym) else (nan if s_isnan(e) else e), [x]))
+    res = _elementwise(lambda e: ite(s_isnan(e), nan, e) if isinstance(e, Sym) else (nan if s_isnan(e) else e), [x])
+    if not copy and isinstance(x, np.ndarray):
+        # NumPy works IN PLACE on the caller's array when copy=False
+        plain = x.view(np.ndarray)
+        if plain.dtype != object and isinstance(res, np.ndarray) and has_sym(res):
+            raise Unsupported("in-place nan_to_num result does not fit a numeric array")
+        plain[...] = res
+        return x
+    return _result(res)
 
 
 def sym_any(a, axis=None, out=None, keepdims=False, **kw):
@@ -1466,6 +1491,7 @@ def _install():
     _reg(np.nanmin, sym_sum_like(np.fmin))
     _reg(np.mean, sym_mean)
     _reg(np.nanmean, sym_nanmean)
+    _reg(np.nanmedian, sym_nanmedian)
     _reg(np.nansum, sym_nansum)
     _reg(np.nan_to_num, sym_nan_to_num)
     _reg(np.any, sym_any)
